@@ -153,6 +153,10 @@ func (l *listener) Accept() (transport.CapableConn, error) {
 		if !c.IsClosed() {
 			return c, nil
 		}
+		// The muxer already shut down (e.g. the remote went away while the
+		// connection was waiting here). Nobody else holds the connection:
+		// close it so that its connection scope is released.
+		c.Close()
 	}
 	if strings.Contains(l.err.Error(), "use of closed network connection") {
 		return nil, transport.ErrListenerClosed
